@@ -443,6 +443,31 @@ def clause6_flush(ctx, P, cg):
                "(the single-threaded daemon serves nobody) until the peer reads" % (sb.srcname, g.srcname))
 
 
+def clause7_write_contract(ctx, P):
+    """the flush loop of send_buffer() ends by returning or by writing a positive number of bytes; it tells 'the socket is full' from
+    progress by the result -1 + errno of the write helper.  That works only while the helper hands back what the system call
+    returned: socket_writev_with_prefix() returns the result of its write call itself on every path (a helper that turns
+    'would block' into 0 makes the loop spin with the rest still queued)"""
+    f = P.fn("socket.c:socket_writev_with_prefix")
+    WRITES = ("writev", "sendmsg", "write", "send")
+    bad = None
+    n = 0
+    for v in Q.path_views(ctx, P, f, loop_iters=1):
+        ws = [i for _, i in v.calls(WRITES)]
+        if not ws:
+            continue      # nothing to write: no system call, nothing to classify
+        n += 1
+        ro = v.ret_operand()
+        r = v.resolve(ro) if ro is not None else None
+        r = P.strip(f, r) if r is not None else None
+        if not (isinstance(r, int) and r == ws[-1].id):
+            bad = bad or (v, P.term(f, r) if r is not None else ("const", "?"))
+    ctx.ob("C10.1 R-RET", f, "write-helper-returns-the-system-call-result", bad is None and n >= 1,
+           ("socket_writev_with_prefix() can return %s instead of what the write call returned: send_buffer() leaves its loop only on "
+            "-1 or when everything is written, so a 'nothing written' that is not -1 keeps it spinning on a full socket" %
+            fmt_term(bad[1])) if bad else "the helper returns the write call's own result", witness=bad[0].witness() if bad else None)
+
+
 def run(ctx):
     for cfg in ctx.configs():
         P, cg = cfg.P, cfg.cg
@@ -452,3 +477,4 @@ def run(ctx):
         clause3_order(ctx, P)
         clause4_header(ctx, P)
         clause5_cursor(ctx, P)
+        clause7_write_contract(ctx, P)
